@@ -14,6 +14,7 @@ import assemble, verus_run
 
 VERIF = assemble.VERIF
 CONTRACTS = os.path.join(VERIF, "contracts")
+OUT = os.environ.get("MILA_OUT", VERIF)      # the mutant audit redirects evidence/replays of its scratch runs
 
 
 def load_json(p):
@@ -92,7 +93,7 @@ def decide(pid, tier, units_cfg, props_cfg, quiet=False):
 
     head, stat = repo_state()
     replay_paths = []
-    rdir = os.path.join(VERIF, "replays", pid)
+    rdir = os.path.join(OUT, "replays", pid)
     for f in violations:
         os.makedirs(rdir, exist_ok=True)
         rp = os.path.join(rdir, sanitize(f.name) + ".json")
@@ -177,8 +178,8 @@ def decide(pid, tier, units_cfg, props_cfg, quiet=False):
           "wall_s": round(time.time() - t0, 2), "violations": len(violations)}
     if undecided:
         cov["undecided"] = [{"unit": u, "reason": r} for u, r in undecided]
-    os.makedirs(os.path.join(VERIF, "evidence"), exist_ok=True)
-    json.dump(ev, open(os.path.join(VERIF, "evidence", pid + ".json"), "w"), indent=1)
+    os.makedirs(os.path.join(OUT, "evidence"), exist_ok=True)
+    json.dump(ev, open(os.path.join(OUT, "evidence", pid + ".json"), "w"), indent=1)
 
     # ---------------------------------------------------------------- verdict
     for f, k in known_hits:
